@@ -121,7 +121,7 @@ fn rec<C: Cfg>(ctx: &mut Ctx, coder: &AnsCoder<C::W, C::S>, trail: &mut Vec<(Let
     }
 }
 
-fn data_case<C: Cfg>(data: &[u128], alphabet: &[Letter], k: usize) -> Ctx<'static> {
+fn data_case<C: Cfg>(data: &[u128], alphabet: &[Letter], k: usize) -> Ctx<'static> where C::S: From<C::W> {
     // SAFETY-free trick: build a ctx borrowing local copies, then move results out
     let mut ctx = Ctx { alphabet, data, nodes: 0, steps: 0, refills: 0, bad: vec![] };
     let words: Vec<C::W> = data.iter().map(|&w| C::w(w)).collect();
@@ -133,6 +133,38 @@ fn data_case<C: Cfg>(data: &[u128], alphabet: &[Letter], k: usize) -> Ctx<'stati
     }
     if coder.is_empty() {
         ctx.bad.push((format!("AnsCoder::from_binary | {} | coder reports empty", C::NAME), format!("data {:x?}", data), json!({"kind": "none"})));
+    }
+    // the same bits on a REVERSED backend (from_reversed_binary of the reversed words): decode one or two symbols,
+    // encode them back, turn the coder round with into_reversed() and export: the original data, the original size
+    {
+        let mut drev: Vec<C::W> = data.iter().map(|&w| C::w(w)).collect();
+        drev.reverse();
+        for nsym in 0..=2usize.min(alphabet.len()) {
+            let mut r = AnsCoder::<C::W, C::S, _>::from_reversed_binary(drev.clone());
+            let mut tr = vec![];
+            for i in 0..nsym {
+                let l = alphabet[(i * 3 + data.len()) % alphabet.len()];
+                if let Ok(kk) = C::ans_decode(&mut r, l) { tr.push((l, kk)); }
+            }
+            let mut ok = true;
+            for &(l, kk) in tr.iter().rev() {
+                let (pc, pp) = part_interval(l.prec, l.c, l.p, kk);
+                if pp == 0 || C::ans_encode(&mut r, Letter::new(l.prec, pc, pp)).is_err() { ok = false; break; }
+            }
+            ctx.steps += 2 * tr.len() as u64;
+            if !ok {
+                ctx.bad.push((format!("AnsCoder on a reversed backend | {} | symbols decoded from binary data cannot be encoded back", C::NAME), format!("data {:x?} models {:?}", data, tr), json!({"kind": "none"})));
+                continue;
+            }
+            let bits = r.num_valid_bits();
+            let fwd = r.into_reversed();
+            let bits2 = fwd.num_valid_bits();
+            let back = fwd.into_binary().ok().map(|cur| { let (buf, pos) = cur.into_buf_and_pos(); to_u128(&buf[..pos]) });
+            if bits != wbits * data.len() || bits2 != bits || back.as_deref() != Some(data) {
+                ctx.bad.push((format!("AnsCoder::into_reversed | {} | binary data loaded on a reversed backend is not what the coder exports after being turned round", C::NAME),
+                    format!("data {:x?}, {} symbols decoded and encoded back: num_valid_bits {bits} / {bits2} (expected {}), into_binary {:x?}", data, tr.len(), wbits * data.len(), back), json!({"kind": "none"})));
+            }
+        }
     }
     rec::<C>(&mut ctx, &coder, &mut vec![], k);
     Ctx { alphabet: &[], data: &[], nodes: ctx.nodes, steps: ctx.steps, refills: ctx.refills, bad: ctx.bad }
@@ -148,7 +180,7 @@ fn all_strings(letters: &[u128], max_len: usize) -> Vec<Vec<u128>> {
     out
 }
 
-fn explore<C: Cfg>(report: &Report, datas: &[Vec<u128>], k: usize, label: &str) {
+fn explore<C: Cfg>(report: &Report, datas: &[Vec<u128>], k: usize, label: &str) where C::S: From<C::W> {
     let t = std::time::Instant::now();
     let alphabet = alphabet::<C>();
     let res: Vec<(u64, u64, u64, Vec<(String, String, serde_json::Value)>)> = datas
